@@ -128,12 +128,13 @@ def post_output_geobox(args, kw, res, exc, snap):
             ok_res = abs(rx - ry) <= 1e-9 * rx and A.a > 0 and A.e < 0 and 0.5 * min(px, py, g) <= rx <= 2 * max(px, py, g)
             why = "fitted resolution not close to the projected source pixel"
         ok_align = True
-        if snapping and anchor in ("default", "edge", 0, AnchorEnum.EDGE):
-            kx, ky = xs[0] / rx, ys[0] / ry
-            ok_align = abs(kx - round(kx)) <= 1e-6 + 1e-9 * abs(kx) and abs(ky - round(ky)) <= 1e-6 + 1e-9 * abs(ky)
-        elif snapping and anchor in ("center", "centre", 0.5, AnchorEnum.CENTER):
-            kx, ky = xs[0] / rx - 0.5, ys[0] / ry - 0.5
-            ok_align = abs(kx - round(kx)) <= 1e-6 + 1e-9 * abs(kx) and abs(ky - round(ky)) <= 1e-6 + 1e-9 * abs(ky)
+        if snapping:
+            from .c08 import _anchor_xy
+
+            axy = _anchor_xy(anchor, False)
+            if axy is not None:
+                kx, ky = xs[0] / rx - axy[0], ys[0] / ry - axy[1]
+                ok_align = abs(kx - round(kx)) <= 1e-6 + 1e-9 * abs(kx) and abs(ky - round(ky)) <= 1e-6 + 1e-9 * abs(ky)
         ok = cover and ok_res and ok_align
         key = "output-does-not-enclose-source" if not cover else "output-resolution" if not ok_res else "output-alignment"
         _mon.check(bool(ok), "compute_output_geobox", lambda: wit({"why": None if cover else "projected source corner outside the result", "res_why": None if ok_res else why,
@@ -203,7 +204,11 @@ def one(mon: Monitor, rng: random.Random) -> None:
     mode = rng.choice(["auto", "auto", "fit", "same", "res", "shape", "shapeint"])
     kw = {"tol": rng.choice([0.01, 0.05])}
     if rng.random() < 0.6:
-        kw["anchor"] = rng.choice(["default", "center", "edge", 0.25, "floating"])
+        kw["anchor"] = rng.choice(["default", "center", "edge", 0.25, "floating", "xy"])
+        if kw["anchor"] == "xy":
+            from odc.geo import xy_
+
+            kw["anchor"] = xy_(rng.choice([0.25, 0, 0.1]), rng.choice([0.75, 0.5, 0.6]))
     if rng.random() < 0.2:
         kw["tight"] = True
     if rng.random() < 0.15:
